@@ -102,7 +102,7 @@ def property_theorems(pid):
     if not os.path.exists(p):
         return []
     src = strip_comments(open(p, encoding="utf-8").read())
-    return re.findall(r"^\s*theorem\s+([A-Za-z0-9_'.]+)", src, flags=re.M)
+    return re.findall(r"^\s*theorem\s+([A-Za-z0-9_'.?!]+)", src, flags=re.M)
 
 
 def audit(pid):
